@@ -150,7 +150,7 @@ func Append(err error, errs ...error) *Error {
 			e = nil
 		}
 		for _, one := range errs {
-			var next *Error
+			var next, tail *Error
 			//nolint:errorlint // Explicitly only want to look at this exact error and not things wrapped inside it
 			switch typedErr := one.(type) {
 			case *Error:
@@ -163,6 +163,7 @@ func Append(err error, errs ...error) *Error {
 						next.next = &copied
 						next = next.next
 					}
+					tail = next
 					next = localRoot
 				}
 			default:
@@ -181,7 +182,10 @@ func Append(err error, errs ...error) *Error {
 				} else {
 					e.next = next
 				}
-				e = next
+				if tail == nil {
+					tail = next
+				}
+				e = tail
 			}
 		}
 		return root
